@@ -401,3 +401,91 @@ Proof.
       { destruct (M.t_pc th); cbn in Htr; try contradiction; break; ors; break; try discriminate; try congruence; (split; [reflexivity|congruence]). }
       destruct Hpm as [Ha Hn]. apply Hne. apply (LI_excl s t t2 th th2 L Ht Ht2 Ha (bmissed_active _ Hm) Hn).
 Qed.
+
+Lemma release_LI s u ev : LI s -> LI (M.release s u ev).
+Proof.
+  intros L. unfold M.release. destruct (nth_error (M.uh s) u) as [[h r]|]; [|exact L].
+  set (X := M.set_uh s (upd (M.uh s) u (h, true))).
+  apply (LI_move s _ L).
+  - rewrite lc_do_thrs. reflexivity.
+  - rewrite lc_do_locks. reflexivity.
+  - right. exists (Release h ev). split; [rewrite lc_do_lc; reflexivity|discriminate].
+  - left. apply (lc_do_path X).
+Qed.
+
+Lemma start_LI s n : LI s -> LI (M.set_thrs s (M.thrs s ++ [M.mkT n M.PWait])).
+Proof.
+  intros [A B C D]. constructor; cbn.
+  - exact A.
+  - intros n0. unfold acnt. cbn. rewrite cnt_snoc. cbn. specialize (B n0). unfold acnt in B. lia.
+  - intros t th Ht Hm. destruct (Nat.lt_ge_cases t (length (M.thrs s))) as [Hlt|Hge].
+    + rewrite nth_error_app1 in Ht by exact Hlt. apply (C t th Ht Hm).
+    + rewrite nth_error_app2 in Ht by exact Hge. destruct (t - length (M.thrs s)) as [|j]; [|destruct j; discriminate].
+      inversion Ht; subst. discriminate.
+  - intros t th Ht Hm. destruct (Nat.lt_ge_cases t (length (M.thrs s))) as [Hlt|Hge].
+    + rewrite nth_error_app1 in Ht by exact Hlt. apply (D t th Ht Hm).
+    + rewrite nth_error_app2 in Ht by exact Hge. destruct (t - length (M.thrs s)) as [|j]; [|destruct j; discriminate].
+      inversion Ht; subst. discriminate.
+Qed.
+
+Theorem step_LI s o : LI s -> LI (fst (M.step s o)).
+Proof.
+  intros L. destruct o as [n|t ok|u|u|n|n|u|u ok]; cbn [M.step fst].
+  - apply start_LI. exact L.
+  - apply tstep_LI. exact L.
+  - apply release_LI. exact L.
+  - apply release_LI. exact L.
+  - apply (LI_move s _ L).
+    + rewrite lc_do_thrs. reflexivity.
+    + rewrite lc_do_locks. reflexivity.
+    + right. exists (Expire n). split; [rewrite lc_do_lc; reflexivity|discriminate].
+    + left. apply (lc_do_path s).
+  - apply (LI_move s _ L).
+    + rewrite bc_do_thrs. reflexivity.
+    + rewrite bc_do_locks. reflexivity.
+    + left. rewrite bc_do_lc. reflexivity.
+    + right. exists (Expire n). split; [rewrite bc_do_bc; reflexivity|discriminate].
+  - destruct (nth_error (M.uh s) u) as [[h r]|]; [|exact L]. destruct (M.layer_flags s h). exact L.
+  - destruct (nth_error (M.uh s) u) as [[h r]|]; [|exact L]. destruct (M.layer_flags s h). exact L.
+Qed.
+
+Theorem exec_LI os : forall s, LI s -> LI (M.exec s os).
+Proof. unfold M.exec. induction os as [|o os IH]; simpl; intros s L; [exact L|]. apply IH. apply step_LI. exact L. Qed.
+
+Theorem reach_LI os : LI (M.exec M.init os).
+Proof. apply exec_LI. apply LI_init. Qed.
+
+(* coarse steps *)
+Lemma run_on_LI f : forall s t e, LI s -> LI (fst (M.run_on f s t e)).
+Proof.
+  induction f as [|f IH]; intros s t e L; cbn; [exact L|].
+  destruct e; try exact L. destruct (M.pause_code (M.pc_of s t)); [exact L|].
+  destruct (M.pc_of s t); try exact L;
+    (destruct (M.tstep s t true) as [s1 e1] eqn:E; apply IH; replace s1 with (fst (M.tstep s t true)) by (rewrite E; reflexivity); apply tstep_LI; exact L).
+Qed.
+Lemma wake_LI s t e : LI s -> LI (fst (M.wake s t e)).
+Proof.
+  intros L. unfold M.wake. destruct (M.is_ret e); [|exact L]. destruct (nth_error (M.thrs s) t) as [th|]; [|exact L].
+  destruct (M.find_waiter _ _ _); [apply run_on_LI; exact L|exact L].
+Qed.
+Lemma cstep_LI s o : LI s -> LI (fst (M.cstep s o)).
+Proof.
+  intros L. destruct o as [n|t ok|u|u|n|n|u|u ok]; cbn [M.cstep].
+  - destruct (M.run_on 16 _ _ _) as [s2 e] eqn:E2. destruct (M.wake s2 _ e) as [s3 e'] eqn:E3. cbn [fst].
+    replace s3 with (fst (M.wake s2 (length (M.thrs s)) e)) by (rewrite E3; reflexivity). apply wake_LI.
+    replace s2 with (fst (M.run_on 16 (fst (M.step s (M.RStart n))) (length (M.thrs s)) M.ENone)) by (rewrite E2; reflexivity).
+    apply run_on_LI. apply step_LI. exact L.
+  - destruct (M.tstep s t ok) as [s1 e1] eqn:E1. destruct (M.run_on 16 s1 t e1) as [s2 e] eqn:E2.
+    destruct (M.wake s2 t e) as [s3 e'] eqn:E3. cbn [fst].
+    replace s3 with (fst (M.wake s2 t e)) by (rewrite E3; reflexivity). apply wake_LI.
+    replace s2 with (fst (M.run_on 16 s1 t e1)) by (rewrite E2; reflexivity). apply run_on_LI.
+    replace s1 with (fst (M.tstep s t ok)) by (rewrite E1; reflexivity). apply tstep_LI. exact L.
+  - apply (step_LI s (M.Done u) L).
+  - apply (step_LI s (M.Close u) L).
+  - apply (step_LI s (M.ExpireL n) L).
+  - apply (step_LI s (M.ExpireB n) L).
+  - pose proof (step_LI s (M.Use u) L) as H. destruct (M.step s (M.Use u)). exact H.
+  - pose proof (step_LI s (M.Refresh u ok) L) as H. destruct (M.step s (M.Refresh u ok)). exact H.
+Qed.
+Lemma cexec_LI os : forall s, LI s -> LI (cexec s os).
+Proof. unfold cexec. induction os as [|o os IH]; simpl; intros s L; [exact L|]. apply IH. apply cstep_LI. exact L. Qed.
